@@ -491,6 +491,19 @@ func (f *frame) invEnv(li *loopInfo, heap *Heap, phiVals map[*ssa.Phi]Val, at *s
 	}
 	if li.rangeIt != nil {
 		env.vars["$itpos"] = *li.rangeIt
+	} else {
+		// an inner loop of a range loop sees the iterator of the enclosing one
+		var best *loopInfo
+		for _, o := range f.loops {
+			if o != li && o.rangeIt != nil && o.body[li.header.Index] {
+				if best == nil || len(o.body) < len(best.body) {
+					best = o
+				}
+			}
+		}
+		if best != nil {
+			env.vars["$itpos"] = *best.rangeIt
+		}
 	}
 	return env
 }
